@@ -252,6 +252,25 @@ class TermEval:
             if e.attr in ("mT", "T") and isinstance(v, Mat):
                 return v.T(assume.get("#vectors", ()))
             raise Unsupported(f"attribute {short(e)}")
+        if isinstance(e, ast.IfExp):
+            c = self.cond(e.test, env, assume)
+            if c is None:
+                raise Unsupported(f"undecided condition {short(e.test)}")
+            return self.ev(e.body if c else e.orelse, env, assume, fn)
+        if isinstance(e, ast.Call) and (dotted(e.func) or "").startswith("torch.") and not e.keywords:
+            leaf = dotted(e.func).split(".")[-1]
+            args = [self.ev(a, env, assume, fn) for a in e.args]
+            if leaf in ("mul", "multiply") and len(args) == 2:
+                return self._mul(args[0], args[1])
+            if leaf == "add" and len(args) == 2:
+                return self._add(args[0], args[1])
+            if leaf in ("sub", "subtract") and len(args) == 2:
+                return self._add(args[0], args[1].neg())
+            if leaf == "matmul" and len(args) == 2 and isinstance(args[0], Mat) and isinstance(args[1], Mat):
+                return args[0].matmul(args[1])
+            if leaf in ("neg", "negative") and len(args) == 1:
+                return args[0].neg()
+            raise Unsupported(f"torch function {short(e)}")
         if isinstance(e, ast.Call) and isinstance(e.func, ast.Attribute):
             recv = self.ev(e.func.value, env, assume, fn)
             args = [self.ev(a, env, assume, fn) for a in e.args]
@@ -350,11 +369,26 @@ def read_tables(idx: ProgramIndex, base: ClassInfo):
         if not name.startswith("_implements"):
             continue
         written = []
+        # a loop variable / local alias standing for one or several tables: for tab in (_HANDLED_A, _HANDLED_B): tab[f] = name
+        stands_for: Dict[str, List[str]] = {}
+        for n in ast.walk(fn.node):
+            if isinstance(n, ast.For) and isinstance(n.target, ast.Name) and isinstance(n.iter, (ast.Tuple, ast.List)):
+                stands_for[n.target.id] = [e.id for e in n.iter.elts if isinstance(e, ast.Name) and e.id.startswith("_HANDLED")]
+            if isinstance(n, ast.Assign) and len(n.targets) == 1 and isinstance(n.targets[0], ast.Name) \
+                    and isinstance(n.value, ast.Name) and n.value.id.startswith("_HANDLED"):
+                stands_for[n.targets[0].id] = [n.value.id]
         for n in ast.walk(fn.node):
             if isinstance(n, ast.Assign):
                 for t in n.targets:
-                    if isinstance(t, ast.Subscript) and isinstance(t.value, ast.Name) and t.value.id.startswith("_HANDLED"):
-                        written.append(t.value.id)
+                    if isinstance(t, ast.Subscript) and isinstance(t.value, ast.Name):
+                        if t.value.id.startswith("_HANDLED"):
+                            written.append(t.value.id)
+                        elif t.value.id in stands_for:
+                            written += stands_for[t.value.id]
+            if isinstance(n, ast.Call) and isinstance(n.func, ast.Attribute) and n.func.attr in ("__setitem__", "update", "setdefault") \
+                    and isinstance(n.func.value, ast.Name):
+                nm = n.func.value.id
+                written += [nm] if nm.startswith("_HANDLED") else stands_for.get(nm, [])
         deco_tables[name] = written
     if len(deco_tables) < 3:
         raise AnalysisError(f"registration decorators not found (have {sorted(deco_tables)})")
@@ -501,6 +535,155 @@ def run(idx: ProgramIndex, rep: Report, tier: str, selftest: bool = True):
         run_fixtures(rep, PROP)
 
 
+class _PE:
+    """Partial evaluation of __torch_function__ for one operand order: `isinstance(args[0], cls)` is a known constant,
+    single-assignment locals are substituted, module-level helpers whose body is one `return <expr>` are expanded inside
+    expressions, constant tests are resolved.  What is left is matched against the routing protocol."""
+
+    def __init__(self, first: bool, cls_p: str, args_p: str, module):
+        self.first, self.cls_p, self.args_p, self.module = first, cls_p, args_p, module
+        self.guards: List[ast.expr] = []
+        self.ret: Optional[ast.expr] = None
+        self.order: List[str] = []
+
+    # -- expressions
+    def subst(self, e: ast.AST, env: Dict[str, ast.AST]) -> ast.AST:
+        import copy
+
+        pe = self
+
+        class T(ast.NodeTransformer):
+            def visit_Name(self, n):
+                if isinstance(n.ctx, ast.Load) and n.id in env:
+                    return copy.deepcopy(env[n.id])
+                return n
+
+            def visit_Lambda(self, n):
+                return n
+
+            def visit_GeneratorExp(self, n):  # bound variables may shadow: substitute only in the iterables
+                n.generators[0].iter = self.visit(n.generators[0].iter)
+                return n
+
+            visit_ListComp = visit_SetComp = visit_GeneratorExp
+
+        return pe.simplify(T().visit(copy.deepcopy(e)))
+
+    def simplify(self, e: ast.AST) -> ast.AST:
+        pe = self
+
+        class S(ast.NodeTransformer):
+            def visit_Call(self, n):
+                self.generic_visit(n)
+                if isinstance(n.func, ast.Name) and n.func.id == "isinstance" and len(n.args) == 2 \
+                        and norm(n.args[0]) == f"{pe.args_p}[0]" and norm(n.args[1]) == pe.cls_p:
+                    return ast.Constant(value=pe.first)
+                if isinstance(n.func, ast.Name) and n.func.id in pe.module.functions and not n.keywords:
+                    h = pe.module.functions[n.func.id]
+                    body = [x for x in h.body() if not (isinstance(x, ast.Expr) and isinstance(x.value, ast.Constant))]
+                    if len(body) == 1 and isinstance(body[0], ast.Return) and body[0].value is not None \
+                            and len(h.params()) == len(n.args) and "Error" not in norm(body[0].value):
+                        return pe.subst(body[0].value, dict(zip(h.params(), n.args)))
+                return n
+
+            def visit_UnaryOp(self, n):
+                self.generic_visit(n)
+                if isinstance(n.op, ast.Not) and isinstance(n.operand, ast.Constant):
+                    return ast.Constant(value=not n.operand.value)
+                return n
+
+            def visit_IfExp(self, n):
+                self.generic_visit(n)
+                if isinstance(n.test, ast.Constant):
+                    return n.body if n.test.value else n.orelse
+                return n
+
+            def visit_BoolOp(self, n):
+                self.generic_visit(n)
+                is_and = isinstance(n.op, ast.And)
+                vals = []
+                for v in n.values:
+                    if isinstance(v, ast.Constant) and isinstance(v.value, bool):
+                        if v.value != is_and:
+                            return ast.Constant(value=not is_and)
+                        continue
+                    vals.append(v)
+                if not vals:
+                    return ast.Constant(value=is_and)
+                return vals[0] if len(vals) == 1 else ast.BoolOp(op=n.op, values=vals)
+
+        return S().visit(e)
+
+    # -- statements
+    def raises_not_implemented(self, body: List[ast.stmt]) -> bool:
+        for st in body:
+            for x in ast.walk(st):
+                if isinstance(x, ast.Raise) and x.exc is not None:
+                    t = norm(x.exc)
+                    if "NotImplementedError" in t:
+                        return True
+                    if isinstance(x.exc, ast.Call) and isinstance(x.exc.func, ast.Name) and x.exc.func.id in self.module.functions \
+                            and "NotImplementedError" in norm(self.module.functions[x.exc.func.id].node):
+                        return True
+        return False
+
+    def run(self, stmts: List[ast.stmt], env: Dict[str, ast.AST]) -> bool:
+        """True when the block certainly returns / raises."""
+        for st in stmts:
+            if isinstance(st, ast.Expr):
+                continue
+            if isinstance(st, ast.Assign) and len(st.targets) == 1 and isinstance(st.targets[0], ast.Name):
+                env[st.targets[0].id] = self.subst(st.value, env)
+                continue
+            if isinstance(st, ast.Return):
+                self.ret = self.subst(st.value, env) if st.value is not None else None
+                self.order.append("return")
+                return True
+            if isinstance(st, ast.Raise):
+                self.order.append("raise")
+                return True
+            if isinstance(st, ast.If):
+                t = self.subst(st.test, env)
+                if isinstance(t, ast.Constant):
+                    if self.run(st.body if t.value else st.orelse, env):
+                        return True
+                    continue
+                if self.raises_not_implemented(st.body) and not any(isinstance(x, ast.Return) for s_ in st.body for x in ast.walk(s_)):
+                    self.guards.append(t)
+                    self.order.append("guard")
+                    if self.run(st.orelse, env):
+                        return True
+                    continue
+                if st.orelse and self.raises_not_implemented(st.orelse):
+                    self.guards.append(ast.UnaryOp(op=ast.Not(), operand=t))
+                    self.order.append("guard")
+                    if self.run(st.body, env):
+                        return True
+                    continue
+                e1, e2 = dict(env), dict(env)
+                r1, r2 = self.run(st.body, e1), self.run(st.orelse, e2)
+                for k in set(e1) | set(e2):
+                    a, b = e1.get(k), e2.get(k)
+                    if a is not None and b is not None and norm(a) == norm(b):
+                        env[k] = a
+                    elif a is not None and b is not None:
+                        env[k] = ast.IfExp(test=t, body=a, orelse=b)
+                if r1 and r2:
+                    return True
+                continue
+            raise Unsupported(f"statement {short(st)}")
+        return False
+
+
+def _disjuncts(e: ast.AST) -> List[ast.AST]:
+    """cond as a disjunction: a or b -> [a, b];  not (a and b) -> [not a, not b]."""
+    if isinstance(e, ast.BoolOp) and isinstance(e.op, ast.Or):
+        return [d for v in e.values for d in _disjuncts(v)]
+    if isinstance(e, ast.UnaryOp) and isinstance(e.op, ast.Not) and isinstance(e.operand, ast.BoolOp) and isinstance(e.operand.op, ast.And):
+        return [d for v in e.operand.values for d in _disjuncts(ast.UnaryOp(op=ast.Not(), operand=v))]
+    return [e]
+
+
 def check_torch_function(idx, rep: Report, base: ClassInfo):
     rep.rule("C15.T3", "__torch_function__ routes by operand position, by method name, and refuses unknown functions", floor=7)
     fn = base.methods.get("__torch_function__")
@@ -514,66 +697,47 @@ def check_torch_function(idx, rep: Report, base: ClassInfo):
     params = fn.params()
     cls_p, func_p = params[0], params[1]
     args_p = params[3] if len(params) > 3 else "args"
-    # locate the branch on isinstance(args[0], cls)
-    top = None
-    for st in fn.body():
-        if isinstance(st, ast.If) and "isinstance" in norm(st.test) and f"{args_p}[0]" in norm(st.test):
-            top = st
-    if top is None:
-        raise AnalysisError("__torch_function__: branch on isinstance(args[0], cls) not found")
-    negated = isinstance(top.test, ast.UnaryOp) and isinstance(top.test.op, ast.Not)
-    second_body, first_body = (top.body, top.orelse) if negated else (top.orelse, top.body)
-
-    def analyse(body, table_expected, order):
-        # membership guard
+    if not any(isinstance(x, ast.Call) and isinstance(x.func, ast.Name) and x.func.id == "isinstance"
+               and len(x.args) == 2 and norm(x.args[0]) == f"{args_p}[0]" and norm(x.args[1]) == cls_p for x in ast.walk(fn.node)):
+        raise AnalysisError("__torch_function__: no test isinstance(args[0], cls) - the operand order is not decided by position")
+    for first, table, order in ((True, "_HANDLED_FUNCTIONS", "operator first"), (False, "_HANDLED_SECOND_ARG_FUNCTIONS", "operator second")):
+        pe = _PE(first, cls_p, args_p, fn.module)
+        try:
+            pe.run(fn.body(), {})
+        except Unsupported as e:
+            raise AnalysisError(f"__torch_function__ ({order}): not evaluable: {e}")
+        # (a) a membership test on the right table guards a NotImplementedError before the handler is returned
         guard_ok = False
-        lookup_ok = False
-        ret = None
-        for st in body:
-            if isinstance(st, ast.If):
-                t = norm(st.test)
-                raises = any(isinstance(x, ast.Raise) and "NotImplementedError" in norm(x) for x in st.body)
-                if f"{func_p} not in {table_expected}" in t and raises:
-                    # the membership clause must be able to trigger on its own: top-level disjunct
-                    if isinstance(st.test, ast.BoolOp) and isinstance(st.test.op, ast.And):
-                        guard_ok = False
-                    else:
-                        guard_ok = True
-            if isinstance(st, ast.Assign) and isinstance(st.value, ast.Call) and dotted(st.value.func) == "getattr":
-                a = st.value.args
-                if len(a) == 2 and norm(a[0]) == cls_p and norm(a[1]) == f"{table_expected}[{func_p}]":
-                    lookup_ok = True
-                    handler_var = st.targets[0].id if isinstance(st.targets[0], ast.Name) else None
-            if isinstance(st, ast.Return):
-                ret = st
-        for what, ok in (("membership test guarding `raise NotImplementedError`", guard_ok),
-                         (f"handler lookup getattr({cls_p}, {table_expected}[{func_p}])", lookup_ok)):
-            if ok:
-                rep.ok("C15.T3", {"order": order, "check": what})
-            else:
-                rep.bad("C15.T3", Finding(PROP, "C15.T3", who, f"{order}: {what}",
-                                          f"{order} branch lacks the {what} on table {table_expected}: an unregistered "
-                                          "function is mis-dispatched instead of raising NotImplementedError, or the "
-                                          "handler is not resolved by name on the receiving class", fn.loc(top)))
-        if ret is None or not isinstance(ret.value, ast.Call):
-            rep.bad("C15.T3", Finding(PROP, "C15.T3", who, f"{order}: return", "branch does not return a handler call",
-                                      fn.loc(top)))
-            return
-        call = ret.value
-        actual = [norm(a) for a in call.args] + ["**" + norm(k.value) for k in call.keywords if k.arg is None]
-        if order == "operator second":
-            want = [f"{args_p}[1]", f"{args_p}[0]", f"*{args_p}[2:]", "**kwargs"]
+        for g in pe.guards:
+            for d in _disjuncts(g):
+                t = norm(d)
+                if t in (f"{func_p} not in {table}", f"not {func_p} in {table}", f"not ({func_p} in {table})"):
+                    guard_ok = True
+        before = "guard" in pe.order and "return" in pe.order and pe.order.index("guard") < pe.order.index("return")
+        what = "membership test guarding `raise NotImplementedError`"
+        if guard_ok and before:
+            rep.ok("C15.T3", {"order": order, "check": what, "table": table})
         else:
-            want = [f"*{args_p}", "**kwargs"]
+            rep.bad("C15.T3", Finding(PROP, "C15.T3", who, f"{order}: {what}",
+                                      f"{order} branch lacks the {what} on table {table} (guards found: {[norm(g)[:60] for g in pe.guards]}): an "
+                                      "unregistered function is mis-dispatched instead of raising NotImplementedError", fn.loc()))
+        # (b) + (c) the handler is looked up by NAME on the receiving class and called with the operator first
+        r = pe.ret
+        lookup = f"getattr({cls_p}, {table}[{func_p}])"
+        if not (isinstance(r, ast.Call) and norm(r.func) == lookup):
+            rep.bad("C15.T3", Finding(PROP, "C15.T3", who, f"{order}: handler lookup {lookup}",
+                                      f"{order} branch returns `{short(r) if r is not None else None}`; the handler must be resolved by name on "
+                                      f"the receiving class: {lookup}(...)", fn.loc()))
+            continue
+        rep.ok("C15.T3", {"order": order, "check": f"handler lookup {lookup}"})
+        actual = [norm(a) for a in r.args] + ["**" + norm(k.value) for k in r.keywords if k.arg is None]
+        want = [f"*{args_p}", "**kwargs"] if first else [f"{args_p}[1]", f"{args_p}[0]", f"*{args_p}[2:]", "**kwargs"]
         if actual == want:
-            rep.ok("C15.T3", {"order": order, "handler_call": norm(call)})
+            rep.ok("C15.T3", {"order": order, "handler_call": norm(r)[:120]})
         else:
-            rep.bad("C15.T3", Finding(PROP, "C15.T3", who, norm(call),
+            rep.bad("C15.T3", Finding(PROP, "C15.T3", who, norm(r),
                                       f"{order} branch calls the handler with ({', '.join(actual)}); the operator must be "
-                                      f"passed first: ({', '.join(want)})", fn.loc(ret)))
-
-    analyse(first_body, "_HANDLED_FUNCTIONS", "operator first")
-    analyse(second_body, "_HANDLED_SECOND_ARG_FUNCTIONS", "operator second")
+                                      f"passed first: ({', '.join(want)})", fn.loc()))
 
 
 def check_solve_triangular(idx, rep: Report, base: ClassInfo):
